@@ -525,6 +525,76 @@ def body_recurrent(case, ctx):
 
 
 @st.composite
+def requery_case(draw):
+    c = draw(automaton_case(max_n=7))
+    c["L"] = draw(st.integers(2, 4))
+    c["edits"] = draw(st.lists(st.tuples(st.sampled_from(
+        ["delete_vertex", "recurrent_inplace", "recurrent_copy", "add_edge", "deepcopy"]),
+        st.integers(0, 9), st.integers(0, 9), st.integers(0, 9)), min_size=1, max_size=3))
+    return c
+
+
+def body_requery(case, ctx):
+    """the queries describe the automaton as it is NOW: enumerate / walk, edit (prune, delete,
+    add), enumerate / walk again - every answer must match the model of the edited graph
+    (a memo or a stale view surviving an edit shows here)"""
+    m = model_of(case)
+    classify(m, ctx)
+    F = build(m, case["route"])
+    ctx.label("route=" + case["route"])
+    L = case["L"]
+    enumeration(F, m, m.verts, L, ctx, tag=" (before any edit)")
+    for (op, a, b, c) in case["edits"]:
+        ctx.label("edit=" + op)
+        if op == "delete_vertex":
+            if len(m.verts) <= 1:
+                continue
+            v = sorted(m.verts, key=repr)[a % len(m.verts)]
+            if v in m.start:
+                continue
+            F.delete_vertex(v)
+            m = m.copy()
+            m.delete_vertex(v)
+            ctx.label("op-changes")
+        elif op == "recurrent_inplace":
+            keep = m.recurrent_core()
+            if not set(m.start) <= set(keep):
+                continue
+            F.recurrent(inplace=True)
+            if len(keep) < len(m.verts):
+                ctx.label("op-changes", "partial-prune")
+            m = m.induced(keep)
+        elif op == "recurrent_copy":
+            keep = m.recurrent_core()
+            if not set(m.start) <= set(keep):
+                continue
+            R = F.recurrent()
+            rm = m.induced(keep)
+            if len(keep) < len(m.verts):
+                ctx.label("op-changes", "partial-prune")
+            enumeration(R, rm, rm.verts, L, ctx, tag=" (on the recurrent copy)")
+            enumeration(F, m, m.verts, L, ctx, tag=" (receiver after recurrent())")
+            continue
+        elif op == "add_edge":
+            vs = sorted(m.verts, key=repr)
+            t, h = vs[a % len(vs)], vs[b % len(vs)]
+            labs = sorted(m.labels()) or ["a"]
+            l = labs[c % len(labs)]
+            if m.target(t, l) is not None:
+                continue
+            F.add_edges([(t, h, l)])
+            m = m.copy()
+            m.add_edge(t, h, l)
+            ctx.label("op-changes")
+        elif op == "deepcopy":
+            F = copy.deepcopy(F)
+        enumeration(F, m, m.verts, L, ctx, tag=" (after %s)" % op)
+        words = words_upto(sorted(m.labels()), min(L, 3))
+        walk_queries(F, m, words, m.verts, ctx, tag=" (after %s)" % op)
+        check_views(F, m, ctx, where="after " + op)
+
+
+@st.composite
 def rlp_case(draw):
     c = draw(automaton_case(max_n=10, sizes=[2, 3, 4, 5, 6, 6, 8, 8, 10, 10]))
     c["ties"] = draw(st.booleans())
@@ -823,6 +893,8 @@ _ren = Law("rename_language", rename_case(), body_rename, nt_op, quick=200, thor
            shards=(2, 4))
 _rec = Law("recurrent_is_greatest", recurrent_case(), body_recurrent, nt_op, quick=300,
            thorough=2500, shards=(2, 4))
+_req = Law("queries_track_edits", requery_case(), body_requery, nt_op, quick=250, thorough=2000,
+           shards=(2, 4))
 _rlp = Law("shortest_path_subgraph", rlp_case(), body_rlp, nt_op, quick=250, thorough=2000,
            shards=(2, 4))
 _der = Law("queries_on_derived_automata", derived_case(), body_derived, nt_basic, quick=300,
@@ -835,4 +907,4 @@ _builtin = Law("builtin_automata_operations", None, body_builtin, lambda l: "has
                exhaustive=exhaustive_builtin)
 _builtin.ex_shards = {"quick": 3, "thorough": 6}
 
-LAWS = [_walk, _enum, _mult, _ren, _rec, _rlp, _der, _small, _builtin]
+LAWS = [_walk, _enum, _mult, _ren, _rec, _req, _rlp, _der, _small, _builtin]
